@@ -75,6 +75,20 @@ Theorem C01_req_call_returns : forall cb g data len c k,
 Proof. exact req_data_fuel_sufficient. Qed.
 Print Assumptions C01_req_call_returns.
 
+(* ... and the response direction: measure 8 * (len - consume offset) + rank(state) (the read offset can move backwards there: invalid chunk length,
+   un-read probe line). ts_entry_ok: a closed stream is only fed the empty chunk, and nothing is buffered in DETERMINE / CL_KNOWN (an invariant:
+   true of the fresh parser and kept by every response data call) *)
+Require Import Htp.Proof.PTermRes.
+Theorem C01_res_call_returns : forall cb g data len c k,
+  ts_entry_ok len c -> connp_res_data_fuel cb g (rs_res_fuel len + k) data len c = connp_res_data cb g data len c.
+Proof. exact res_data_fuel_sufficient. Qed.
+Print Assumptions C01_res_call_returns.
+Theorem C01_res_entry_invariant : forall cb g data len c, ts_bufok c -> ts_bufok (fst (connp_res_data cb g data len c)).
+Proof. exact res_data_keeps_bufok. Qed.
+Print Assumptions C01_res_entry_invariant.
+Example C01_res_entry_invariant_new : ts_bufok connp_new.
+Proof. exact ts_bufok_new. Qed.
+
 (* ---- ownership: create / open / destroy returns the heap it started from, under every allocation-failure schedule,
         with no double free, use after free or NULL dereference on the way (the weakest precondition excludes faults) ---- *)
 Require Import Htp.Model.MOwn Htp.Proof.POwn.
